@@ -6,6 +6,7 @@ import (
 	"strconv"
 	"strings"
 
+	lucene "github.com/grindlemire/go-lucene"
 	"github.com/grindlemire/go-lucene/pkg/driver"
 	"github.com/grindlemire/go-lucene/pkg/lucene/expr"
 )
@@ -145,4 +146,40 @@ func MarshalExpr(e *expr.Expression) string {
 		}
 		return "ok:" + Hex(string(b))
 	})
+}
+
+// DriverIsolation checks that driver values are independent: editing the function map of one driver instance must not
+// change any other driver, in particular the package-level one behind ToPostgres / ToParameterizedPostgres.
+// Returns the violated clauses (empty = isolated).
+func DriverIsolation() (fails []string) {
+	defer func() {
+		if r := recover(); r != nil {
+			fails = append(fails, fmt.Sprintf("panic: %v", r))
+		}
+	}()
+	base1, _ := lucene.ToPostgres("a:b")
+	_, errF := lucene.ToPostgres("a:b~2 AND c")
+	d := driver.NewPostgresDriver()
+	d.RenderFNs[expr.Fuzzy] = TraceFn(expr.Fuzzy)
+	d.RenderFNs[expr.Boost] = TraceFn(expr.Boost)
+	d.RenderFNs[expr.Equals] = TraceFn(expr.Equals)
+	after1, _ := lucene.ToPostgres("a:b")
+	if after1 != base1 {
+		fails = append(fails, fmt.Sprintf("replacing a function in one driver instance changed ToPostgres(a:b): %q -> %q", base1, after1))
+	}
+	if _, err := lucene.ToPostgres("a:b~2 AND c"); (err == nil) != (errF == nil) {
+		fails = append(fails, "registering a fuzzy function in one driver instance made ToPostgres accept a fuzzy query")
+	}
+	if _, _, err := lucene.ToParameterizedPostgres("a:b^2"); err == nil {
+		fails = append(fails, "registering a boost function in one driver instance made ToParameterizedPostgres accept a boost query")
+	}
+	e, _ := lucene.Parse("a:b")
+	fresh, _ := driver.NewPostgresDriver().Render(e)
+	if fresh != base1 {
+		fails = append(fails, fmt.Sprintf("a fresh NewPostgresDriver() renders a:b as %q after another instance was customised", fresh))
+	}
+	if _, ok := driver.Shared[expr.Fuzzy]; ok {
+		fails = append(fails, "driver.Shared has gained a Fuzzy entry")
+	}
+	return fails
 }
